@@ -23,3 +23,7 @@ mod ptr_mut;
 pub use address::Address;
 pub use ptr::*;
 pub use ptr_mut::*;
+
+#[cfg(feature = "koto_verif")]
+#[allow(missing_docs)]
+pub mod verif;
